@@ -196,8 +196,8 @@ EagerCap == \A m \in Stages : Held(m) <= Cap
 Terminates == <>(Finished \/ Paused)
 (* ---------------------------------- P-level (C13) ---------------------------------- *)
 \* when the consumer stops pulling after k chunks the source produces at most k + Bound further chunks, Bound depending only on
-\* the graph and the capacity (every mailbox: cap buffered + cap in the reader's hands + one in the sender's), not on NChunks
-PauseBound == Fail[1] = "pause" => sk[1] <= Fail[3] + NS * (2 * Cap + 2)
+\* the graph and the capacity (every mailbox: cap buffered + cap in the reader's hands, plus one chunk in work per stage), not on NChunks
+PauseBound == Fail[1] = "pause" => sk[1] <= Fail[3] + NS * (2 * Cap + 1)
 \* lazy mode: a stage passes its gate only while a driving reader of its mailbox waits for a message that is not there (or after a kill)
 LazyDemand == [][\A i \in Stages : (Lazy /\ spc[i] = "gate" /\ spc'[i] = "fetch") => CanFetch(i)]_vars
 =============================================================================
